@@ -150,10 +150,15 @@ def chk_norms(inp):
         rms = numpy.sqrt((Z ** 2).sum((1, 2)) / pup.sum())
         if not numpy.allclose(rms, 1, rtol=1e-10):
             return bad("norm='rms': RMS over the pupil is not 1 (N=%d)" % N, rms.tolist(), 1.0)
-        Z = aotools.zernikeArray(list(range(2, 11)), N, norm="p2v")
-        p2v = Z.max((1, 2)) - Z.min((1, 2))
-        if not numpy.allclose(p2v, 1, rtol=1e-10):
-            return bad("norm='p2v': peak-to-valley is not 1 (N=%d)" % N, p2v.tolist(), 1.0)
+        for J in (list(range(2, 11)), 10, [1, 4, 7]):
+            Z = aotools.zernikeArray(J, N, norm="p2v")
+            if not numpy.all(numpy.isfinite(Z)):
+                return bad("norm='p2v': modes %s contain non-finite values (N=%d)" % (J, N), int((~numpy.isfinite(Z)).sum()), 0)
+            p2v = Z.max((1, 2)) - Z.min((1, 2))
+            if not numpy.allclose(p2v, 1, rtol=1e-10):
+                return bad("norm='p2v': peak-to-valley is not 1 for modes %s (N=%d)" % (J, N), p2v.tolist(), 1.0)
+            if abs(Z * (1 - pup)).max() != 0:
+                return bad("norm='p2v': modes do not vanish outside the pupil (N=%d)" % N)
 
 
 def chk_phase(inp):
